@@ -5,7 +5,7 @@ from lib import vf, srv
 
 ID = "C03"
 PROP_FILE = "Props/C03.v"
-CONSTS = []
+CONSTS = ["truncated_cmp"]
 EXTRA_BINS = ("dgrep",)
 RULE = ("reader API (fs.NewCatFile.Start with regex.New->Serialize->Deserialize) and the real dgrep --plain CLI on generated "
         "files: lines from a word pool, RE2 patterns from a grammar (literals, anchors, classes, alternation, repetition, "
@@ -20,10 +20,10 @@ ASSUMPTIONS = ["a file is abstracted to its selected/unselected vector; RE2 itse
                "context option values stay below 2*len+4 (huge values are C10's subject)"]
 
 WORDS = ["ERROR", "ERRORS=3", "error", "info", "WARN disk", "foo", "foobar", "bar", "x", "", "a b", "ERROR ", " lead",
-         "café", "€ 12", "10.0.0.7", "GET /index.html 200", "GET /x 404", "tab\there", "[brackets]", "a.b", "a*b"]
+         "café", "€ 12", "10.0.0.7", "GET /index.html 200", "GET /x 404", "tab\there", "[brackets]", "a.b", "a*b", "ERROR\r", "info\r", "x\r"]
 PATTERNS = ["ERROR", "ERROR ", " ", "^\\d+:ERROR", "error|WARN", "(?i)error", "fo+", "foo(bar)?$", "\\d+\\.\\d+", "[A-Z]{4,}",
             "^\\d+:$", "café", "€", "\\bGET\\b.*404", "a\\.b", "a\\*b", "\\[", "x", ".", ".*", "", "..", "^", "$",
-            "nomatchatall", "\\s$", "\t", "=3", "0:", "[^0-9:]"]
+            "nomatchatall", "\\s$", "\t", "=3", "0:", "[^0-9:]", "ERROR$", "\\r$", "o$", "^\\d+:.$"]
 
 
 def py_spec(sel, b, a, m):
@@ -102,11 +102,17 @@ def generate(rng, tier):
             rng.shuffle(ls)
         cases.append({"lines": [l.encode().hex() for l in ls], "pattern": pat.encode().hex(), "invert": inv,
                       "before": rng.choice([0, 1, 2]), "after": rng.choice([0, 1, 2]), "max": rng.choice([0, 0, 2]), "via": "cli", "raw": True})
+    # one glob matching several files: every file is filtered on its own (context and max per file)
+    for i in range(6 if tier == "quick" else 60):
+        parts = [rng.randint(1, 8) for _ in range(rng.choice([2, 3, 4]))]
+        lines = [rng.choice(["ERROR x", "info", "info", "ERROR y", "z"]) for _ in range(sum(parts))]
+        cases.append({"lines": [l.encode().hex() for l in lines], "pattern": b"ERROR".hex(), "invert": rng.random() < 0.2,
+                      "before": rng.choice([0, 1, 2]), "after": rng.choice([0, 1]), "max": rng.choice([0, 1, 2]), "via": "cli", "glob": parts})
     ncli = 40 if tier == "quick" else 400
     for i in range(ncli):
         L = rng.choice([1, 3, 6, 10, 25])
         # the CLI path goes over the wire: bytes 0xAC (inside the euro sign) are C01's known finding
-        pool = rng.sample([w for w in WORDS if b"\xac" not in w.encode()], rng.randint(2, 5))
+        pool = rng.sample([w for w in WORDS if b"\xac" not in w.encode() and "\r" not in w], rng.randint(2, 5))
         lines = [rng.choice(pool) for _ in range(L)]
         pat = rng.choice([p for p in PATTERNS if p not in ("", "€")])   # the CLI refuses an empty -regex
         cases.append({"lines": [l.encode().hex() for l in lines], "pattern": pat.encode().hex(), "invert": rng.random() < 0.35,
@@ -128,16 +134,27 @@ def _cli(env, d, k, c):
     if c.get("raw"):
         texts = [bytes.fromhex(l).decode() for l in c["lines"]]       # distinct lines, some of them empty / white space only
     path = os.path.join(d, "g%05d.log" % k)
-    with open(path, "wb") as f:
-        body = "".join(t + "\n" for t in texts)
-        f.write((body[:-1] if c.get("nonl") and texts else body).encode())
+    if c.get("glob"):
+        off = 0
+        for j, n in enumerate(c["glob"]):
+            with open(os.path.join(d, "g%05d_%d.part" % (k, j)), "wb") as f:
+                f.write("".join(t + "\n" for t in texts[off:off + n]).encode())
+            off += n
+        path = os.path.join(d, "g%05d_*.part" % k)
+    else:
+        with open(path, "wb") as f:
+            body = "".join(t + "\n" for t in texts)
+            f.write((body[:-1] if c.get("nonl") and texts else body).encode())
     args = ["--plain", "--regex", bytes.fromhex(c["pattern"]).decode(), "--before", str(c["before"]), "--after", str(c["after"]),
             "--max", str(c["max"]), "--files", path]
     if c["invert"]:
         args.insert(1, "--invert")
     rc, out, err = env.client("dgrep", args, timeout=60)
     idx, bad = [], []
-    for line in out.decode("utf-8", "replace").split("\n")[:-1] if c.get("raw") else out.decode("utf-8", "replace").splitlines():
+    parts = out.decode("utf-8", "replace").split("\n")      # (not splitlines(): a CR belongs to its line)
+    if parts and parts[-1] == "" and not c.get("raw"):
+        parts.pop()
+    for line in (parts[:-1] if c.get("raw") else parts):
         try:
             n = texts.index(line) if c.get("raw") else int(line.split(":", 1)[0])
             if texts[n] != line:
@@ -199,6 +216,19 @@ def judge(cases, obs, tier):
             continue
         sel = _sel(c, o)
         want = py_spec(sel, c["before"], c["after"], c["max"])
+        if c.get("glob"):
+            want, off = [], 0
+            for n in c["glob"]:
+                want += [off + j for j in py_spec(sel[off:off + n], c["before"], c["after"], c["max"])]
+                off += n
+            if o.get("bad"):
+                oracle[i] = "output contains lines that are not lines of the files: %s" % o["bad"][:2]
+            elif sorted(o["idx"]) != want:
+                oracle[i] = "glob over %d files: selected lines %s, grep semantics per file prescribe %s (before=%d after=%d max=%d)" % (
+                    len(c["glob"]), sorted(o["idx"])[:40], want[:40], c["before"], c["after"], c["max"])
+            elif o["rc"] != 0:
+                oracle[i] = "dgrep exit status %d" % o["rc"]
+            continue
         if o.get("bad"):
             oracle[i] = "output contains lines that are not lines of the file: %s" % o["bad"][:2]
         elif o["idx"] != want:
